@@ -240,9 +240,10 @@ def check(rep):
                    f"{n} objects of this kind compared with all {len(items)} pool objects and {len(FOREIGN)} foreign "
                    f"objects: == is the structural equality, symmetric, != its negation, equal => equal hash",
                    cases=n * len(items))
-    from ..structure import check_field_agreement, check_hash_subset_of_eq
+    from ..structure import check_field_agreement, check_hash_subset_of_eq, check_no_value_identity
     check_field_agreement(rep, model, "C12.fields", ["__eq__"], "equality", must_cover=True)
     check_hash_subset_of_eq(rep, model, "C12.hash-fields")
+    check_no_value_identity(rep, model, "C12.value-identity")
     rep.extra["pairs_compared"] = pairs
     rep.sample({"pool": [describe(i) for i in items[:8]]})
     rep.require_floor("C12.eq", 15, "object kinds")
